@@ -55,12 +55,17 @@ fn apy_reference(g: &[u128; 53], d: i64) -> BigUint {
 pub fn run_c38(cli: &Cli) -> Report {
     let mut rep = Report::new(cli, "exploration");
     rep.rule("E1: compute_time_weighted_apy over 6 gradients within the 200% cap x stake starts x durations around every week boundary (0, 1, W-1, W, W+1, ..., 54W+1, long horizons) against the exact big-integer average of weekly buckets (and a literal per-second sum for short durations); calculate_gt_reward_amount over boundary stake values x APY rates x cost integrals: monotone in value and in the integral, equal to the two-step floor product, saturating at u64::MAX, negative durations rejected; non-trivial = duration > 0 / reward computed");
-    rep.assume("durations are bounded by 10^17 s so that bucket*seconds stays inside u128 (the implementation saturates beyond) and now - start does not overflow i64; the unstake instruction path (partial/full exit, claims disabled) needs the LP program world and is not covered here");
+    rep.assume("durations are bounded by 10^17 s so that bucket*seconds stays inside u128 (the implementation saturates beyond) and now - start does not overflow i64; unstaking: E3 breadth first over the real liquidity-provider program on the real store (stake_gm with the pricing CPI, unstake_lp of everything / half / all but one / one / too much, by the owner and by a stranger, claim switch, three minimum stake values, clock advances, a third party dropping dust into the vault): a partial unstake pays exactly the requested tokens and keeps (remaining, floor(value * remaining / staked)); an exit that is full by amount or forced by the minimum stake value sweeps the whole vault, closes vault and position and decrements the position count; with claims disabled only full-amount unstakes are accepted; svm-lite runtime trusted");
     if let Some(rv) = &cli.replay {
+        if rv.get("path").is_some() {
+            crate::lpworld::run(&mut rep, cli);
+            return rep;
+        }
         rep.sample(json!({"note": "closed-form case: re-run the quick tier", "case": rv}));
         rep.evaluations = 1;
         return rep;
     }
+    crate::lpworld::run(&mut rep, cli);
     let th = cli.tier.thorough();
     let gs = gradients(cli);
     let mut durs: Vec<i64> = vec![-5, 0, 1, 2, 59, 60, 3600];
